@@ -103,11 +103,29 @@ def do_run(sid, tier='quick'):
     return res
 
 
+def do_table():
+    rows = ['| id | file changed | what the change needs in order to show | outcome of `./check <prop> --tier quick` on the changed copy | first signature |', '|---|---|---|---|---|']
+    for sid in sorted(os.listdir(SEEDED)):
+        mp = os.path.join(SEEDED, sid, 'meta.json')
+        if not os.path.exists(mp): continue
+        m = json.load(open(mp)); r = m.get('ran') or {}
+        patch = open(os.path.join(SEEDED, sid, 'patch.diff')).read()
+        files = sorted(set(x.replace('src/stockpyl/', '') for x in re.findall(r'^\+\+\+ b/(\S+)', patch, re.M)))
+        first = re.sub(r'^[#\s]*(Mutant\s*\d+|m\d+)\s*[-—–]*\s*', '', (m.get('needs_to_manifest') or '').strip().split('\n')[0]).replace('|', '/')[:120]
+        sig = (r.get('signatures') or [''])[0].split(':')[0].replace('|', ' / ')
+        rows.append('| %s | %s | %s | %s (%ss) | %s |' % (sid, ', '.join(files), first, r.get('verdict'), r.get('check_wall_s'), sig))
+    open(os.path.join(SEEDED, 'TABLE.md'), 'w').write('# Seeded changes and what the checks report on them\n\nGenerated by `py/seeded.py table` from `seeded/*/meta.json` '
+        '(each written by `py/seeded.py run <id>`: demonstration on the unchanged and on the changed copy, then the property\'s quick check with `VERIF_REPO_SRC` pointing at the changed copy).\n\n' + '\n'.join(rows) + '\n')
+    print('\n'.join(rows))
+
+
 if __name__ == '__main__':
     if sys.argv[1] == 'import':
         do_import(sys.argv[2], sys.argv[3])
     elif sys.argv[1] == 'run':
         do_run(sys.argv[2], sys.argv[4] if len(sys.argv) > 4 else 'quick')
+    elif sys.argv[1] == 'table':
+        do_table()
     elif sys.argv[1] == 'runall':
         for sid in sorted(os.listdir(SEEDED)):
             if os.path.exists(os.path.join(SEEDED, sid, 'meta.json')):
